@@ -24,6 +24,7 @@ RELOAD_OP = 'game.save_reload'  # write the cart, load it back, carry on
 REPLACE_OP = 'game.replace_section'  # assign a new section object
 DEEPCOPY_OP = 'game.deepcopy'   # carry on with copy.deepcopy(game)
 CLI_OP = 'cli.call'             # an unrelated p8tool command in this process
+SHALLOW_OP = 'game.shallow_copy'  # carry on with copy.copy of the map / game
 RAW_OP = 'game.write_cart_data'
 ACCESSOR_OPS = ACCESSOR_OPS + (COPY_OP, 'gfx.copy_sprite', RELOAD_OP,
                                REPLACE_OP, DEEPCOPY_OP, CLI_OP)
@@ -341,7 +342,47 @@ def generate(rng, prop, tier, index):
             enabled += [REPLACE_OP]
     n = rng.choice([1, 2, 3, 5, 8, 13, 21, 30])
     ops = [gen_op(rng, rng.choice(enabled)) for _ in range(n)]
-    return {'engine': NAME, 'init': init, 'ops': ops}
+    sc = {'engine': NAME, 'init': init, 'ops': ops}
+    _round8(core.derive_rng(rng.randrange(10**9), 'round8', 0), sc)
+    return sc
+
+
+def _round8(rng, sc):
+    """Variations added in round 8.  They are drawn from a generator of
+    their own, after everything else, so that the scenarios of earlier rounds
+    stay what they were apart from what is added here."""
+    ops = sc['ops']
+    init = sc['init']
+    for o in ops:
+        a = o['args']
+        if o['op'] in ('gfx.set_sprite', 'map.set_rect_tiles') and \
+                not a.get('rows_as') and not a.get('as_bytearray') and \
+                not isinstance(a.get('sprite'), dict) and rng.random() < 0.12:
+            # the rows are cut, one after the other, from one stream of values
+            a['rows_as'] = 'shared-stream'
+        if o['op'] == RAW_OP and not a.get('own_section') and \
+                not a.get('as_bytearray') and not a.get('as_memoryview') and \
+                rng.random() < 0.12:
+            # the payload is a slice of a memoryview of a larger, immutable
+            # bytes object (a ROM image, say)
+            a['view_of_bytes'] = [rng.choice([0, 1, 16, 0x3200]),
+                                  rng.choice([0, 1, 16, 4000])]
+    if rng.random() < 0.08:
+        # the history continues on a shallow copy (copy.copy) of the map
+        # section or of the game
+        ops.insert(rng.randint(0, len(ops)), {
+            'op': SHALLOW_OP, 'args': {'what': rng.choice(['map', 'game',
+                                                           'map'])}})
+    if all(o['op'] == RAW_OP for o in ops) and rng.random() < 0.15:
+        # the map section object is taken over from another live game (as
+        # `p8tool build` does); from then on only raw writes follow
+        ops.insert(rng.randint(0, len(ops)), {
+            'op': REPLACE_OP, 'args': {'section': 'map', 'from': 'donor'}})
+    if any(o['op'] == RAW_OP for o in ops) and rng.random() < 0.08:
+        # the game is an instance of a caller's subclass whose
+        # write_cart_data takes bank-relative addresses and defers to the
+        # inherited one
+        init['subclass_base'] = rng.choice([0x100, 0x1000, 0x10, 0x2fff])
 
 
 def enumerated(prop, tier, seed):
@@ -398,8 +439,16 @@ def _build_game(w, init):
     return g, cart
 
 
-def _flat(g):
-    return b''.join(bytes(getattr(g, k)._data) for k in refcodec.REGIONS)
+def _flat(g, skip_map=False):
+    return b''.join(bytes(getattr(g, k)._data) for k in refcodec.REGIONS
+                    if not (skip_map and k == 'map'))
+
+
+def _cut_map(flat, cut):
+    if not cut:
+        return flat
+    a = refcodec.REGION_ADDR['map']
+    return flat[:a] + flat[a + refcodec.REGION_SIZE['map']:]
 
 
 def _sizes(g):
@@ -532,7 +581,7 @@ class ArgumentModified(Exception):
 def _check_args_untouched(op, passed, original, a):
     kind = a.get('rows_as') or ('bytearray' if a.get('as_bytearray')
                                 else 'list')
-    if kind in ('iter', 'gen', 'reused-buffer'):
+    if kind in ('iter', 'gen', 'reused-buffer', 'shared-stream'):
         return            # one-shot iterators are consumed by design
     now = [list(r) for r in passed]
     if now != [list(r) for r in original]:
@@ -564,6 +613,13 @@ def _rows(rows, a):
         if kind.startswith('memoryview'):
             return [memoryview(x) for x in arrs]
         return arrs
+    if kind == 'shared-stream':
+        # rows cut one after the other from one stream of values (a file
+        # being read, a decoder): row n+1 starts where row n ended
+        import itertools
+        rows = [list(r) for r in rows]
+        stream = iter([v for r in rows for v in r])
+        return [itertools.islice(stream, len(r)) for r in rows]
     if kind == 'reused-buffer':
         # a scanline producer that refills and yields one and the same buffer
         def scan():
@@ -611,9 +667,16 @@ def _real(g, op, a):
             data = bytearray(data)
         if a.get('as_memoryview') and not a.get('own_section'):
             data = memoryview(bytearray(data))
+        if a.get('view_of_bytes') and not a.get('own_section'):
+            pre, post = a['view_of_bytes']
+            big = core.rnd_bytes(a['data_seed'] + 1, pre) + bytes(data) + \
+                core.rnd_bytes(a['data_seed'] + 2, post)
+            data = memoryview(big)[pre:pre + a['len']]
+        addr = a['start_addr'] - _SUBCLASS_BASE[0]
+        # (a caller's subclass adds its base to the address it is given)
         if a.get('positional', True):
-            return g.write_cart_data(data, a['start_addr'])
-        return g.write_cart_data(data=data, start_addr=a['start_addr'])
+            return g.write_cart_data(data, addr)
+        return g.write_cart_data(data=data, start_addr=addr)
     if op == COPY_OP:
         rect = g.map.get_rect_tiles(a['x'], a['y'], a['width'], a['height'])
         snapshot = _norm(rect)
@@ -643,6 +706,27 @@ def _real(g, op, a):
         _check_args_untouched(op, rect, a['rect'], a)
         return r
     return getattr(target, meth)(**kw)
+
+
+_SUBCLASS_BASE = [0]
+
+
+def _banked(g, base):
+    """The game becomes an instance of a subclass, written by a caller, whose
+    write_cart_data takes addresses relative to `base` and defers to the
+    inherited method."""
+    _SUBCLASS_BASE[0] = base
+    if not base or getattr(type(g), '_picosim_banked', False):
+        return g
+    parent = type(g)
+
+    class BankedGame(parent):
+        _picosim_banked = True
+
+        def write_cart_data(self, data, start_addr=0):
+            return super().write_cart_data(data, start_addr + base)
+    g.__class__ = BankedGame
+    return g
 
 
 POST_WRITE_PROBES = (
@@ -688,6 +772,10 @@ def _execute(sc):
     ev = res['events']
     with world.World() as w:
         g, cart = _build_game(w, sc['init'])
+        sub_base = sc['init'].get('subclass_base') or 0
+        g = _banked(g, sub_base)
+        if sub_base:
+            core.bump(res['probes'], 'game-is-a-callers-subclass')
         m = models.MemModel(refcodec.flat_memory(cart))
         if _flat(g) != bytes(m.m):
             short = _sizes(g) != EXPECTED_SIZES and all(
@@ -734,6 +822,7 @@ def _execute(sc):
         originals = []
         label0 = bytes(g.label._data) if getattr(g, 'label', None) else None
         retained = []
+        donor_active = False
         for step, o in enumerate(sc['ops']):
             op, a = o['op'], o['args']
             prop = 'C18' if op == RAW_OP else 'C17'
@@ -770,6 +859,32 @@ def _execute(sc):
                     core.bump(res['probes'], 'continued-on-deepcopy')
                 except Exception as e:
                     exc = e
+                mres, rejected, real = None, False, None
+            elif op == SHALLOW_OP:
+                # copy.copy of the map section (put in the old one's place)
+                # or of the game: whether the copy shares its buffers with
+                # the original or not, it holds the same cart
+                import copy
+                try:
+                    if a['what'] == 'map':
+                        g.map = copy.copy(g.map)
+                    else:
+                        g = copy.copy(g)
+                    core.bump(res['probes'], 'continued-on-shallow-copy-of-' +
+                              a['what'])
+                except Exception as e:
+                    exc = e
+                mres, rejected, real = None, False, None
+            elif op == REPLACE_OP and a.get('from') == 'donor':
+                # the map section object of another live game takes the place
+                # of this game's (what `p8tool build --map` does); the other
+                # game keeps using it too
+                g.map = g2.map
+                donor_active = True
+                m.m[refcodec.REGION_ADDR['map']:
+                    refcodec.REGION_ADDR['map'] +
+                    refcodec.REGION_SIZE['map']] = bytes(g2.map._data)
+                core.bump(res['probes'], 'map-section-taken-from-another-game')
                 mres, rejected, real = None, False, None
             elif op == REPLACE_OP:
                 # the public attributes of a Game may be assigned: a new
@@ -818,7 +933,7 @@ def _execute(sc):
                 from pico8.game import file as pfile
                 try:
                     pfile.to_file(g, w.p(name))
-                    g = pfile.from_file(w.p(name))
+                    g = _banked(pfile.from_file(w.p(name)), sub_base)
                     core.bump(res['probes'], 'saved-and-reloaded-' + fmt)
                 except Exception as e:
                     exc = e
@@ -887,8 +1002,10 @@ def _execute(sc):
                         '%s(%s) returned %s, model predicts %s' % (
                             op, _brief(a), _brief(_norm(real)),
                             _brief(_norm(mres))), step)
-                elif op == RAW_OP:
+                elif op == RAW_OP and not donor_active:
                     # post-condition of the write as seen through getters
+                    # (not with a map taken from another game: its lower rows
+                    # are that game's sprite memory)
                     for pop, pa in POST_WRITE_PROBES:
                         m2, _ = _model(m, pop, dict(pa))
                         try:
@@ -906,7 +1023,8 @@ def _execute(sc):
                                               _brief(_norm(r2)),
                                               _brief(_norm(m2))), step)
                             break
-            if op in (DEEPCOPY_OP, RELOAD_OP):
+            if op in (DEEPCOPY_OP, RELOAD_OP) or (
+                    op == SHALLOW_OP and a['what'] == 'game'):
                 # the history continues on another Game object
                 label0 = bytes(g.label._data) if getattr(
                     g, 'label', None) else None
@@ -993,9 +1111,14 @@ def _execute(sc):
                         'modified by later operations on the cart' % step)
                     break
         if not res['violations']:
-            if _flat(g2) != bystander0:
+            donor = any(o['op'] == REPLACE_OP and
+                        o['args'].get('from') == 'donor' for o in sc['ops'])
+            if _flat(g2, skip_map=donor) != _cut_map(bystander0, donor):
+                # (a map section that both games use is, of course, changed
+                # for both by writes to the map region)
                 core.violation(
-                    res, 'C18' if all(o['op'] == RAW_OP for o in sc['ops'])
+                    res, 'C18' if all(o['op'] in (RAW_OP, REPLACE_OP)
+                                      for o in sc['ops'])
                     else 'C17', 'C17:other-game-modified',
                     'C17|edits leaked into another Game instance',
                     'a second Game built the same way changed although no '
